@@ -13,6 +13,7 @@ TraceSql == Range(Meta.sql)
 TraceRetention == Meta.retention
 TraceLookback == Meta.lookback
 TraceMaxPast == Meta.maxpast
+TraceU(c) == IF "users" \in DOMAIN Meta /\ c \in DOMAIN Meta.users THEN Meta.users[c] ELSE c
 TraceOOT == IF "oot" \in DOMAIN Meta THEN Meta.oot ELSE 100
 TraceMFD == IF "mfd" \in DOMAIN Meta THEN Meta.mfd ELSE 1000
 TraceDev == Range(Meta.dev)
@@ -50,7 +51,7 @@ PostOK(clx, evx, gix, procx, msgsx, c, g, p) ==
     /\ (gs.mls = "ok" /\ p.mls = "ok") =>
          \* (chain_ok = FALSE: the harness could not name the MLS state unambiguously; the epoch is still bound)
          /\ V("chain") => Chk("chain", c, (p.chain_ok => p.chain = gs.chain) /\ p.epoch = gix[g].base + Len(gs.chain), gs.chain)
-         /\ V("members") => Chk("members", c, Range(p.members) = s.members, s.members)
+         /\ V("members") => Chk("members", c, Range(p.members) = UsersOf(s.members), s.members)
          /\ V("pend") => Chk("pend", c, p.pend = (gs.pend # NoE), gs.pend)
          /\ V("props") => Chk("props", c, p.nprops = Cardinality(gs.props), gs.props)
          /\ V("mdata") => Chk("mdata", c, DataEq(s, p.mdata), s)
@@ -68,7 +69,19 @@ PostOK(clx, evx, gix, procx, msgsx, c, g, p) ==
          {[epoch |-> x.epoch, commit |-> x.commit] : x \in Range(p.snaps)}
          = {[epoch |-> x.epoch, commit |-> x.commit] : x \in gs.stored}, {[epoch |-> x.epoch, commit |-> x.commit] : x \in gs.stored})
 
-Post1 == PostOK(cl', ev', ginfo', proc', msgs', R.c, R.g, R.post)
+\* read-only views of the same state: pending member changes, rotation obligation, group listing, pending welcomes
+PostViews(c, g, p) ==
+    LET gs == cl'[c][g] IN
+    /\ (V("props") /\ "prem" \in DOMAIN p /\ gs.mls = "ok" /\ p.mls = "ok") =>
+          /\ Chk("prem", c, Range(p.prem) = UsersOf(PropRemoves(gs.props)), gs.props)
+          /\ Chk("padd", c, Range(p.padd) = {}, {})
+    /\ (V("rec") /\ "nsu" \in DOMAIN p) =>
+          /\ Chk("nsu", c, p.nsu = (gs.rec.st = "active" /\ gs.rec.su), gs.rec)
+          /\ Chk("listed", c, p.listed = (gs.rec.st # "none"), gs.rec.st)
+    /\ (V("welc") /\ "pwel" \in DOMAIN p) =>
+          Chk("pwel", c, Range(p.pwel) = {w \in DOMAIN welc'[c] : wl'[w].g = g /\ welc'[c][w].st = "pending"}, welc'[c])
+PostAll(c, g, p) == PostOK(cl', ev', ginfo', proc', msgs', c, g, p) /\ PostViews(c, g, p)
+Post1 == PostAll(R.c, R.g, R.post)
 
 NM(name) == [name |-> IF name # "" THEN name ELSE "unused" \o ToString(l), ts |-> R.ts, rank |-> R.rank, now |-> R.now,
              t |-> IF "t" \in DOMAIN R THEN R.t ELSE 0]
@@ -80,10 +93,11 @@ TMeta == R.op = "Reset" /\ Reset
 
 TCreate ==
     /\ R.op = "Create"
-    /\ CreateGroup(R.c, R.g, Range(R.members), Range(R.admins), R.nid, R.base)
-    /\ \A i \in DOMAIN R.posts : PostOK(cl', ev', ginfo', proc', msgs', R.posts[i].c, R.g, R.posts[i].post)
+    /\ CreateGroup(R.c, R.g, Range(R.members), UsersOf(Range(R.admins)), R.nid, R.base)
+    /\ \A i \in DOMAIN R.posts : PostAll(R.posts[i].c, R.g, R.posts[i].post)
 
-CommitArg == IF R.kind \in {"add", "remove", "admins", "relays"} THEN Range(R.arg)
+CommitArg == IF R.kind \in {"remove", "admins"} THEN UsersOf(Range(R.arg))       \* identities
+             ELSE IF R.kind \in {"add", "relays"} THEN Range(R.arg)
              ELSE IF R.kind = "self_update" THEN {} ELSE R.arg
 
 TCommit ==
@@ -143,7 +157,7 @@ TWelcome ==
                                        /\ IF ENABLED WelcomeCallFails(R.c, R.w) THEN WelcomeCallFails(R.c, R.w) /\ R.res = "Err"
                                           ELSE UNCHANGED vars
     /\ Post1
-    /\ ("posts" \in DOMAIN R) => \A i \in DOMAIN R.posts : PostOK(cl', ev', ginfo', proc', msgs', R.c, R.posts[i].g, R.posts[i].post)
+    /\ ("posts" \in DOMAIN R) => \A i \in DOMAIN R.posts : PostAll(R.c, R.posts[i].g, R.posts[i].post)
 
 TDropKP ==
     /\ R.op = "DropKP"
@@ -154,7 +168,7 @@ TDropKP ==
 TSnapshot ==
     /\ R.op = "Snapshot"
     /\ UNCHANGED vars
-    /\ \A i \in DOMAIN R.posts : PostOK(cl', ev', ginfo', proc', msgs', R.posts[i].c, R.posts[i].g, R.posts[i].post)
+    /\ \A i \in DOMAIN R.posts : PostAll(R.posts[i].c, R.posts[i].g, R.posts[i].post)
 
 TForge ==
     /\ R.op = "Forge"
@@ -170,7 +184,7 @@ TRaw ==
             ELSE IF R.kind = "prop_update" THEN ProposeUpdate(R.c, R.g, NM(R.e))
             ELSE DoCommitX(R.c, R.g, CASE R.kind = "admins_self" -> "admins" [] R.kind = "update_identity" -> "idchange" [] OTHER -> R.kind,
                            CASE R.kind = "remove" -> Range(R.arg)
-                             [] R.kind = "admins_self" -> GS(R.g, cl[R.c][R.g].chain).admins \cup {R.c}
+                             [] R.kind = "admins_self" -> GS(R.g, cl[R.c][R.g].chain).admins \cup {U(R.c)}
                              [] R.kind = "update_identity" -> [from |-> R.c, to |-> R.arg[1]]
                              [] OTHER -> R.arg,
                            NM(R.e), <<>>, TRUE)
@@ -184,12 +198,12 @@ TJunk ==
 TRestart ==
     /\ R.op = "Restart"
     /\ IF "ttl" \in DOMAIN R THEN RestartT(R.c, R.ttl, R.now) ELSE Restart(R.c)
-    /\ \A i \in DOMAIN R.posts : PostOK(cl', ev', ginfo', proc', msgs', R.c, R.posts[i].g, R.posts[i].post)
+    /\ \A i \in DOMAIN R.posts : PostAll(R.c, R.posts[i].g, R.posts[i].post)
 
 TQuiesce ==
     /\ R.op = "Quiesce"
     /\ Quiesce
-    /\ \A i \in DOMAIN R.posts : PostOK(cl', ev', ginfo', proc', msgs', R.posts[i].c, R.posts[i].g, R.posts[i].post)
+    /\ \A i \in DOMAIN R.posts : PostAll(R.posts[i].c, R.posts[i].g, R.posts[i].post)
 
 TraceInit == Init /\ l = 2
 
